@@ -69,9 +69,18 @@ func c09Specs() []*MethodSpec {
 		}
 		return nil
 	}
+	// slow answers only once its context is done (deadline, client gone) — the reply is sent too late
+	slow := func(ctx context.Context, in *dynamicpb.Message) (proto.Message, error) {
+		select {
+		case <-ctx.Done():
+		case <-time.After(400 * time.Millisecond):
+		}
+		return dynamicpb.NewMessage(in.Descriptor().ParentFile().Messages().ByName("Reply")), nil
+	}
 	book := getRule("/v1/{name=shelves/*/books/*}")
 	book.AdditionalBindings = nil
 	return []*MethodSpec{
+		{Name: "Slow", In: "Req", Out: "Reply", Unary: slow, Rule: postRule("/v1/slow", "*")},
 		{Name: "GetBook", In: "Req", Out: "Reply", Unary: unary, Rule: book},
 		{Name: "PatchBook", In: "Req", Out: "Reply", Unary: unary, Rule: customRule("PATCH", "/v1/{name=shelves/*/books/*}", "nested")},
 		{Name: "GetShelf", In: "Req", Out: "Reply", Unary: unary, Rule: getRule("/v1/{name=shelves/*}")},
@@ -435,6 +444,46 @@ func runC09(c *Ctx) {
 			} else if st := strings.Trim(rec.Header().Get("Grpc-Status")+rec.Result().Trailer.Get("Grpc-Status"), "0"); rec.Code != 200 || st != "" {
 				c.SpecFail("request", in, fmt.Sprintf("%d grpc-status %q", rec.Code, st), "OK", "C09/valid-refused/grpc-compressed-reply", "a valid compressed call fails")
 			}
+		}
+	}
+	// a deadline (or a vanished client) that fires between the request message and the reply
+	for _, variant := range []string{"grpc", "grpc-web", "grpc-cancel", "http-cancel"} {
+		for _, mux := range []http.Handler{fxA.Mux, fxB.Mux} {
+			ctx, cancel := context.WithCancel(context.Background())
+			var r *http.Request
+			switch variant {
+			case "http-cancel":
+				r = httptest.NewRequest("POST", "/v1/slow", strings.NewReader("{}"))
+				r.Header.Set("Content-Type", "application/json")
+			default:
+				r = httptest.NewRequest("POST", "/"+fxPkg+".Svc/Slow", bytes.NewReader(grpcFrame(0, nil)))
+				r.Header.Set("Content-Type", "application/grpc+proto")
+				if variant == "grpc-web" {
+					r.Header.Set("Content-Type", "application/grpc-web+proto")
+				} else {
+					r.ProtoMajor, r.ProtoMinor = 2, 0
+				}
+			}
+			if strings.HasSuffix(variant, "cancel") {
+				go func() { time.Sleep(30 * time.Millisecond); cancel() }()
+			} else {
+				r.Header.Set("Grpc-Timeout", "30m")
+			}
+			r = r.WithContext(ctx)
+			done := make(chan interface{}, 1)
+			go func() { _, pn := serveOn(mux, r); done <- pn }()
+			in := fmt.Sprintf("[late-reply] %s: the handler answers only after its context is done", variant)
+			c.Eval("request", in, true)
+			c.Class("late-reply")
+			select {
+			case pn := <-done:
+				if pn != nil {
+					c.SpecFail("request", in, fmt.Sprint("panic: ", pn), "a response", "C09/panic/late-reply/"+c09PanicKey(pn), "a request panics the mux")
+				}
+			case <-time.After(4 * time.Second):
+				c.SpecFail("request", in, "no response within 4 s (the serving goroutine is still running)", "control returns", "C09/hang/late-reply/"+variant, "a reply sent after the deadline wedges the serving goroutine")
+			}
+			cancel()
 		}
 	}
 	n := c.N(6000, 150000)
